@@ -474,3 +474,11 @@ Example c04_percent_nonvacuous :
   verify_signature ex_hmac ex_sha (fun _ => None) 10 1005 (mkr get (bytes_of_string "/p%d") q1 [] [] [] 0) h = code_pass /\
   verify_signature ex_hmac ex_sha (fun _ => None) 10 1005 (mkr get (bytes_of_string "/p%d") q2 [] [] [] 0) h = code_invalid_token.
 Proof. vm_compute. split; reflexivity. Qed.
+
+(* astronomically large clock offsets: now + 2^55 s is a multiple of 2^64 ns away, and +17 s more would look like 17 s to a
+   nanosecond comparison; the int64 seconds test of the model refuses them, as it refuses MaxInt64 / MinInt64 / negative stamps *)
+Example c04_far_offsets_refused :
+  forallb (fun ts => (wrap64 (ts + 600) <? 1800000000) || (wrap64 (1800000000 + 600) <? ts))
+    [1800000000 + 2^55; 1800000000 + 2^55 + 17; 1800000000 - 2^55; 1800000000 - (2^55 + 17); 1800000000 + 3 * 2^55;
+     1800000000 - 3 * 2^55; 2^63 - 1; - 2^63; -1; -1700000000] = true.
+Proof. vm_compute. reflexivity. Qed.
